@@ -46,6 +46,7 @@ type vConn struct {
 	frames  [][]byte // payloads, in the order their second half was written
 	nframes int
 	raw     [][]byte
+	torn    bool
 	wrote   chan struct{} // receives a token after every complete frame written by the gateway (buffered)
 }
 
@@ -58,8 +59,21 @@ func (c *vConn) Write(p []byte) (int, error) {
 	if c.closed {
 		return 0, errors.New("write on closed connection")
 	}
+	if len(c.halves) > 0 && !c.halves[len(c.halves)-1].payload {
+		c.torn = true // raw bytes land between the header and the payload of a text frame
+	}
 	c.raw = append(c.raw, p)
 	return len(p), nil
+}
+
+// verifWsWriteFrame is what ws.WriteFrame becomes: header and payload are separate writes
+func verifWsWriteFrame(w io.Writer) error {
+	if _, err := w.Write([]byte("frame-header")); err != nil {
+		return err
+	}
+	verifYield()
+	_, err := w.Write([]byte("frame-payload"))
+	return err
 }
 func (c *vConn) Close() error {
 	c.closes++
@@ -119,7 +133,7 @@ func (c *vConn) contiguous() bool {
 			return false
 		}
 	}
-	return len(c.halves)%2 == 0 || !c.halves[len(c.halves)-1].payload
+	return !c.torn && (len(c.halves)%2 == 0 || !c.halves[len(c.halves)-1].payload)
 }
 
 func verifNewCancel() (chan struct{}, func()) {
